@@ -1,10 +1,11 @@
 // package-dir: pkg/core/hnsw
 // property: C07
-// bound: four fixed data sets of seeded standard-normal vectors (dimension 16, Euclidean, float32) and these
+// bound: six fixed data sets of seeded standard-normal vectors (dimension 16, Euclidean, float32) and these
 //        construction paths: (1) 3000 vectors by single Add, M = 8, efConstruction 100; (2) the same by AddBatch
 //        in calls of 500; (3) M = 16, efConstruction 200: 200 vectors, then ONE AddBatch of 5000; (4) as (2),
-//        then every third vector deleted and the vacuum run; 100 seeded queries each, k = 10, efSearch 50
-//        (100 for (3)); floor 0.90 for recall@10 and for retrieval of a stored vector by its own value
+//        then every third vector deleted and the vacuum run; (5) M = 16: 50 vectors by Add, then ONE
+//        AddBatchFast of 1000; (6) M = 16: 250 vectors by Add, then ONE AddBatch of 1000; 100 seeded queries
+//        each, k = 10, efSearch 50 (100 for (3), (5), (6)); floor 0.90 for recall@10 and for retrieval of a stored vector by its own value
 //        (every 10th vector)
 // rule: recall@10 against brute force over the live vectors and self-retrieval are measured once per path
 //        and must not be below the floor; non-trivial = every measurement (none is vacuous)
@@ -130,6 +131,27 @@ func TestGovcBounded(t *testing.T) {
 		idx.AddBatch(objsOf(big, 0, 200))
 		idx.AddBatch(objsOf(big, 200, 5200))
 		measure("200 vectors, then one AddBatch of 5000, M=16", idx, big, all, queries, 100)
+		idx.Close()
+	}
+	{
+		small := vecsOf(1050, 16, 1)
+		idx, _ := New(16, 200, distance.Euclidean, distance.Float32, "", "")
+		for i := 0; i < 50; i++ {
+			idx.Add(fmt.Sprintf("v%d", i), append([]float32(nil), small[i]...))
+		}
+		idx.SetNeedsRefine(true)
+		idx.AddBatchFast(objsOf(small, 50, 1050))
+		measure("50 vectors, then one AddBatchFast of 1000 (refine flag on), M=16", idx, small, all, queries, 100)
+		idx.Close()
+	}
+	{
+		mid := vecsOf(1250, 16, 1)
+		idx, _ := New(16, 200, distance.Euclidean, distance.Float32, "", "")
+		for i := 0; i < 250; i++ {
+			idx.Add(fmt.Sprintf("v%d", i), append([]float32(nil), mid[i]...))
+		}
+		idx.AddBatch(objsOf(mid, 250, 1250))
+		measure("250 vectors, then one AddBatch of 1000, M=16", idx, mid, all, queries, 100)
 		idx.Close()
 	}
 	fmt.Printf("GOVC-BOUNDED-DONE explored=%d nontrivial=%d violations=%d\n", explored, nontrivial, violations)
